@@ -351,11 +351,15 @@ fn check_component(ctx: &mut Ctx, case: u64, lib: &Library, ci: usize) {
         }
         ctx.count("mutual-subtype-checks");
     }
-    // imported-dependency mode: the actual component satisfies the component type wac writes
+    check_dep_type(ctx, case, &c.name, &c.bytes, &input);
+}
+
+/// Imported-dependency mode: the actual component satisfies the component type wac writes for it.
+fn check_dep_type(ctx: &mut Ctx, case: u64, name: &str, bytes: &[u8], input: &serde_json::Value) {
     ctx.eval();
     let r = catch(|| {
         let mut g = CompositionGraph::new();
-        let p = Package::from_bytes(&c.name, None, c.bytes.clone(), g.types_mut()).map_err(|e| format!("{e:#}"))?;
+        let p = Package::from_bytes(name, None, bytes.to_vec(), g.types_mut()).map_err(|e| format!("{e:#}"))?;
         let import_name = crate::compose::package_import_name(&p);
         let id = g.register_package(p).map_err(|e| e.to_string())?;
         g.instantiate(id);
@@ -364,17 +368,13 @@ fn check_component(ctx: &mut Ctx, case: u64, lib: &Library, ci: usize) {
     });
     match r {
         Err(p) => {
-            if p.message.contains("no entry found for key") {
-                ctx.count("dep-type:known-C01-panic-zone");
-            } else {
-                ctx.violation(case, &format!("C08:dep-type-panic:{}", normalize_msg(&p.message)), p.to_string(), input.clone());
-            }
+            ctx.violation(case, &format!("C08:dep-type-panic:{}", normalize_msg(&p.message)), p.to_string(), input.clone());
         }
         Ok(Err(e)) => {
             ctx.count("dep-type:encode-error");
             ctx.note("last_dep_type_error", json!(e));
         }
-        Ok(Ok((out, import_name))) => match refval::nest(&[&c.bytes, &out]) {
+        Ok(Ok((out, import_name))) => match refval::nest(&[bytes, &out]) {
             Err(e) => {
                 // the output alone must validate; if it does not, that is C01's subject
                 ctx.count("dep-type:output-does-not-validate(C01)");
@@ -394,7 +394,90 @@ fn check_component(ctx: &mut Ctx, case: u64, lib: &Library, ci: usize) {
     }
 }
 
+/// Shaped components (WAT): function signatures the WIT-derived workload cannot produce, above all
+/// `async` functions at every nesting level. (path, async?, parameter names, has result)
+const SHAPED: &[(&str, &[(&[&str], bool, &[&str], bool)])] = &[
+    (
+        "(component (import \"f\" (func async (param \"x\" u8) (result string))) (import \"g\" (func (param \"y\" u32))) (import \"i\" (instance (export \"a\" (func async)) (export \"s\" (func (result u8))))))",
+        &[(&["f"], true, &["x"], true), (&["g"], false, &["y"], false), (&["i", "a"], true, &[], false), (&["i", "s"], false, &[], true)],
+    ),
+    (
+        "(component (import \"c\" (component (import \"p\" (func async (param \"k\" bool))) (export \"q\" (func async (param \"z\" bool) (result u8))) (export \"r\" (func)))))",
+        &[(&["c", "import:p"], true, &["k"], false), (&["c", "export:q"], true, &["z"], true), (&["c", "export:r"], false, &[], false)],
+    ),
+    (
+        "(component (import \"i\" (instance (export \"n\" (instance (export \"deep\" (func async (param \"a\" string) (param \"b\" string))))))) (import \"h\" (func async)))",
+        &[(&["i", "n", "deep"], true, &["a", "b"], false), (&["h"], true, &[], false)],
+    ),
+];
+
+fn lookup(types: &Types, kind: ItemKind, path: &[&str]) -> Option<ItemKind> {
+    if path.is_empty() {
+        return Some(kind);
+    }
+    let (first, rest) = (path[0], &path[1..]);
+    let next = match kind {
+        ItemKind::Instance(id) => types[id].exports.get(first).copied(),
+        ItemKind::Component(id) => match first.split_once(':') {
+            Some(("import", n)) => types[id].imports.get(n).copied(),
+            Some(("export", n)) => types[id].exports.get(n).copied(),
+            _ => types[id].imports.get(first).copied(),
+        },
+        _ => None,
+    }?;
+    lookup(types, next, rest)
+}
+
+fn check_shaped(ctx: &mut Ctx) {
+    for (i, (wat, expected)) in SHAPED.iter().enumerate() {
+        let case = crate::witness::WITNESS_BASE + 100 + i as u64;
+        if !ctx.mine(case) {
+            continue;
+        }
+        ctx.begin(case);
+        let input = json!({"wat": wat});
+        let Ok(bytes) = wat::parse_str(wat) else {
+            ctx.count("harness:shaped-wat-does-not-assemble");
+            continue;
+        };
+        let mut types = Types::default();
+        let pkg = match catch(|| Package::from_bytes("test:shaped", None, bytes.clone(), &mut types).map_err(|e| format!("{e:#}"))) {
+            Ok(Ok(p)) => p,
+            Ok(Err(e)) => {
+                ctx.violation(case, "C08:shaped-component-rejected", e, input.clone());
+                continue;
+            }
+            Err(p) => {
+                ctx.violation(case, &format!("C08:decode-panic:{}", normalize_msg(&p.message)), p.to_string(), input.clone());
+                continue;
+            }
+        };
+        for (path, is_async, params, has_result) in expected.iter() {
+            ctx.eval();
+            match lookup(&types, ItemKind::Component(pkg.ty()), path) {
+                Some(ItemKind::Func(f)) => {
+                    let ft = &types[f];
+                    let names: Vec<&str> = ft.params.keys().map(|s| s.as_str()).collect();
+                    if ft.is_async != *is_async {
+                        ctx.violation(case, "C08:function-async-flag-lost", format!("{path:?}: decoded is_async = {}, the component says {is_async}", ft.is_async), input.clone());
+                    } else if names != *params || ft.result.is_some() != *has_result {
+                        ctx.violation(case, "C08:shaped-function-signature", format!("{path:?}: decoded params {names:?} result {}; the component has {params:?} result {has_result}", ft.result.is_some()), input.clone());
+                    } else {
+                        ctx.count("shaped-signatures-equal");
+                        if *is_async {
+                            ctx.count("async-functions-checked");
+                        }
+                    }
+                }
+                other => ctx.violation(case, "C08:shaped-item-missing", format!("{path:?} decodes to {:?}", other.map(|k| k.desc(&types).to_string())), input.clone()),
+            }
+        }
+        check_dep_type(ctx, case, "test:shaped", &bytes, &input);
+    }
+}
+
 pub fn run(ctx: &mut Ctx) {
+    check_shaped(ctx);
     let total = ctx.n(6_000, 2_000_000);
     for case in ctx.cases(total) {
         if ctx.out_of_budget() {
